@@ -426,6 +426,17 @@ pub fn run(ctx: &mut Ctx) {
         rng.shuffle(&mut list);
         let n = rng.range(1, list.len());
         judge_threshold(ctx, &e, &list[..n], &replay);
+        // a list may name the same key more than once: each ENTRY with a valid signature counts
+        if case % 3 == 0 {
+            let mut l2: Vec<&Key> = list[..n].to_vec();
+            for _ in 0..rng.range(1, 2) {
+                let x = l2[rng.below(l2.len())];
+                let at = rng.below(l2.len() + 1);
+                l2.insert(at, x);
+            }
+            ctx.count("key_lists_with_repeated_keys");
+            judge_threshold(ctx, &e, &l2, &replay);
+        }
 
         // sign()/verify() on the wrapped form
         if case % 4 == 0 {
